@@ -28,7 +28,8 @@ S3 ties (harness/c08_rangecoder.c vs. OpusModel.RangeCoder through Driver.SuiteR
                        a 5 ms redundancy frame (bandwidth switch; both celt_to_silk values) are lines `oframer`: a wrapper around
                        celt_encode_with_ec records the frame's bytes R and the CELT encoder's final range, and the model
                        silkRedFrame (celt_to_silk bit, cut at (ec_tell+7)>>3 without strip, R behind, rangeFinal = rng ^ redundant_rng)
-                       must reproduce payload and final range
+                       must reproduce payload and final range; plus, model-free, the real opus_decode on each packet must end
+                       with the encoder's final range
 S4 search: the property predicates evaluated on the implementation alone (harness modes `search` / `prop`):
   P1 round trip when the encoder reports no error, P2 tell/tell_frac bounds, monotonicity, range invariant and
   encoder/decoder agreement, P3 guard bytes and bytes beyond the current storage untouched, P4 tell <= 8*storage
@@ -284,6 +285,13 @@ def _silk_witness(tie, mm):
         return {'suite': tie.name, 'input': _short(inp, 3000), 'expected': 'inputs in the encoder\'s domain are coded and decoded to completion',
                 'observed': impl, 'why': 'sanitizer report / celt_assert in the SILK symbol layer on legal indices / pulses: '
                 + ' | '.join(mm.get('sanitizer_report', [])[:6])}
+    if tie.name == 'rangecoder-opusframe':
+        m = re.search(r' F (\d+) R diff:(\S+)', impl)
+        if m:
+            return {'suite': tie.name, 'input': _short(inp, 3000), 'expected': 'the real opus_decode decodes the packet and ends with the final range '
+                    'the real opus_encode reports: ' + m.group(1), 'observed': m.group(2),
+                    'why': 'encoder and decoder final range differ on a SILK-only packet (no model involved; opus_decode = its return value)'}
+        return None
     if tie.name == 'rangecoder-silkpacket':
         m = re.search(r' R (diff\S*)(.*)$', impl)
         if m:
@@ -314,7 +322,7 @@ def _silk_witness(tie, mm):
 
 def classify(ctx, tie, mm):
     inp = mm.get('input', '')
-    if tie.name in ('rangecoder-silkframe', 'rangecoder-silkpacket'):
+    if tie.name in ('rangecoder-silkframe', 'rangecoder-silkpacket', 'rangecoder-opusframe'):
         return _silk_witness(tie, mm)
     if tie.name == 'rangecoder-tellfrac':
         return _tf_witness(tie, mm)
